@@ -6,6 +6,7 @@
 #include "bitserializer/convert.h"
 #include "bitserializer/types/std/pair.h"
 #include "bitserializer/serialization_detail/archive_traits.h"
+#include "bitserializer/serialization_detail/generic_container.h"
 #include "bitserializer/serialization_detail/bin_timestamp.h"
 
 namespace BitSerializer
@@ -73,7 +74,7 @@ namespace BitSerializer
 				{
 					// Reserve map capacity (like for std::unordered_map) when the approximate size is known
 					if (const auto estimatedSize = scope.GetEstimatedSize(); estimatedSize != 0 && mapLoadMode != MapLoadMode::OnlyExistKeys) {
-						cont.reserve(estimatedSize);
+						cont.reserve(LimitPreallocatedSize<typename TMap::value_type>(estimatedSize));
 					}
 				}
 
